@@ -84,6 +84,24 @@ def make_assertion(kind, con):
                                                          json_assertions=js, **kw).values()))
 
 
+_OBJECTS = {}
+
+
+def make_decoy(kind, con):
+    """another assertion of the same contest whose assorter values differ from the one under test"""
+    from shangrla.core.Audit import Assertion
+    from shangrla.core.NonnegMean import NonnegMean
+    kw = dict(test=NonnegMean.alpha_mart, estim=NonnegMean.fixed_alternative_mean)
+    if kind == "plur":
+        return Assertion.make_plurality_assertions(contest=con, winner=["L"], loser=["W"], **kw)["L v W"]
+    if kind.startswith("super"):
+        return next(iter(Assertion.make_supermajority_assertion(contest=con, share_to_win=con.share_to_win, winner="L",
+                                                                loser=["W"], **kw).values()))
+    js = [{"winner": "L", "loser": "W", "assertion_type": "IRV_ELIMINATION", "already_eliminated": ["X"]}]
+    return next(iter(Assertion.make_assertions_from_json(contest=con, candidates=["W", "L", "X", "Y"],
+                                                         json_assertions=js, **kw).values()))
+
+
 def make_contest(kind, style, audit_type, cards):
     from shangrla.core.Audit import Contest
     from shangrla.core.NonnegMean import NonnegMean
@@ -143,10 +161,20 @@ def run_case(tid, kind, u, style, cards, thr, rng, polling=False):
            "excs": excs}
     cvrs, mvrs = build_cards(kind, cards, rng)
     audit = mk_audit(style, len(cards))
-    con = make_contest(kind, style, audit_type, len(cards))
-    asn = guard("make_assertion", lambda: make_assertion(kind, con))
-    if asn == "exc":
-        return rec
+    # Contest / Assertion objects live as long as an audit: the same objects serve case after case (margin, pool
+    # means, threshold and test are set anew each time, as a user re-running an audit would), and a second
+    # assertion of the same contest (a decoy with the opposite winner / loser) has its pool means set as well
+    key = (kind, style, audit_type)
+    if key not in _OBJECTS or rng.random() < 0.1:
+        con0 = make_contest(kind, style, audit_type, len(cards))
+        a0 = guard("make_assertion", lambda: make_assertion(kind, con0))
+        if a0 == "exc":
+            return rec
+        d0 = guard("make_assertion", lambda: make_decoy(kind, con0))
+        _OBJECTS[key] = (con0, a0, None if d0 == "exc" else d0)
+    con, asn, decoy = _OBJECTS[key]
+    con.cards = len(cards)
+    con.sample_threshold = None
     con.assertions = {"a": asn}
     under = [k for k, c in enumerate(cards) if (not style) or c["cs"] != "x"]
     out = {}
@@ -156,6 +184,8 @@ def run_case(tid, kind, u, style, cards, thr, rng, polling=False):
         out["margin"] = rs(asn.margin) if asn.margin is not None else "exc"
         if pooled:
             guard("set_tally_pool_means", lambda: asn.assorter.set_tally_pool_means(cvr_list=cvrs, use_style=style))
+            if decoy is not None:
+                guard("set_tally_pool_means", lambda: decoy.assorter.set_tally_pool_means(cvr_list=cvrs, use_style=style))
             pm = asn.assorter.tally_pool_means or {}
             out["pool_means"] = {str(p): rs(v) for p, v in pm.items()}
             for p in {c["pool"] for c in cards if c["pool"] != "none"}:
